@@ -78,8 +78,8 @@ Definition rec_missing (c : conf_case) : bool :=
   | Some o, Some sig =>
       match go_checkpoint (st_tron (cc_st c)) (st_gid (cc_st c)) o with
       | Some pre =>
-          if zlen sig <? 65 then false
-          else match rec_lookup (cc_recs c) pre (norm_v sig) with Some _ => false | None => true end
+          if zlen sig <? chain_minlen (st_tron (cc_st c)) then false
+          else match rec_lookup (cc_recs c) pre (norm_v (chain_vnorm (st_tron (cc_st c))) sig) with Some _ => false | None => true end
       | None => false
       end
   | _, _ => false
@@ -133,3 +133,27 @@ Record imp_case := { ic_st : cstate; ic_after : list (ckey * cmsg) }.
 Definition mk_imp_case st after : imp_case := {| ic_st := st; ic_after := after |}.
 Definition imp_mismatch (c : imp_case) : bool :=
   negb (conf_set_eqb (import_conf genesis_confirm_owner_by_external (ic_st c)) (ic_after c)).
+
+(* ---- V sweep cases: one genuine signature r‖s, the 65th byte swept over 0..255, each judged by the real handler on
+   the same state (nothing committed).  vs_table: what go-ethereum's recovery returns for r‖s‖b, for the bytes b on which
+   it succeeds (independent of any normalisation); vs_accepted: the V values the real handler accepted. ---- *)
+Record vs_case := {
+  vs_st : cstate; vs_msg : cmsg; vs_sig64 : list Z; vs_pre : list Z; vs_table : list (Z * Z); vs_accepted : list Z
+}.
+Definition mk_vs_case st m sig64 pre table accepted : vs_case :=
+  {| vs_st := st; vs_msg := m; vs_sig64 := sig64; vs_pre := pre; vs_table := table; vs_accepted := accepted |}.
+
+Definition vs_recover (c : vs_case) (tron : bool) (pre sig : list Z) : option Z :=
+  if zlist_eqb pre (vs_pre c) && (zlen sig =? 65) && zlist_eqb (firstn 64 sig) (vs_sig64 c)
+  then match nth_error sig 64 with Some b => assoc Z.eqb b (vs_table c) | None => None end
+  else None.
+
+Definition with_sig (m : cmsg) (sig : list Z) : cmsg :=
+  {| m_kind := m_kind m; m_token := m_token m; m_nonce := m_nonce m; m_bridger := m_bridger m;
+     m_external := m_external m; m_sig := Some sig |}.
+
+Definition vs_model_accepted (c : vs_case) : list Z :=
+  filter (fun v => is_accepted (handle (vs_recover c) (vs_st c) (with_sig (vs_msg c) (vs_sig64 c ++ [v]))))
+         (map Z.of_nat (seq 0 256)).
+
+Definition vs_mismatch (c : vs_case) : bool := negb (zlist_eqb (vs_model_accepted c) (vs_accepted c)).
